@@ -21,7 +21,7 @@ CLAIMED = {
         technique="Rocq proof (induction on programs) about a hand model + exact correspondence on operation sequences",
         ref="DESIGN.md §3 C20"),
     "C03": dict(
-        text="Theorems over the reals about the Gallina translation of every shape term regenerated from term.py on each run: membership = height x documented closed form under the term's validity predicate, range [0,height], break-point values, monotonicity of exactly the terms that declare it; over the extended reals (NaN, +-inf with IEEE special-value rules): NaN exactly when x is NaN, values at +-inf, infinite shoulders; bit-exact binary64 correspondence of the same kernels (and of a hand model of numpy.interp for Discrete) against NumPy at every parameter value and its float neighbours, +-inf, NaN, scalar/1-d/2-d; float-level range/NaN/break-point statements are searched, not proved.",
+        text="Theorems over the reals about the Gallina translation of every shape term regenerated from term.py on each run: membership = height x documented closed form under the term's validity predicate, range [0,height], break-point values, monotonicity of exactly the terms that declare it; over the extended reals (NaN, +-inf with IEEE special-value rules): NaN exactly when x is NaN, values at +-inf, infinite shoulders; for Discrete (hand model of numpy.interp) the documented piecewise-linear interpolation, range, continuity, monotonicity and NaN behaviour (C03d); bit-exact binary64 correspondence of the same kernels (and of a hand model of numpy.interp for Discrete) against NumPy at every parameter value and its float neighbours, +-inf, NaN, scalar/1-d/2-d; float-level range/NaN/break-point statements are searched, not proved.",
         note="Coq kernel + vm_compute; stdlib Reals axioms; translator; exp/cos/power/libm-pow results recorded from the implementation; R/ER theorems do not speak about rounding (the float-level statements are marked partial in the evidence); Discrete is a hand model of numpy.interp.",
         technique="Rocq proof over R and extended reals of a model regenerated from source + bit-exact correspondence (vm_compute on PrimFloat)",
         ref="DESIGN.md §3 C03"),
@@ -66,12 +66,12 @@ CLAIMED = {
         technique="Rocq proof about operation sequences on the engine model + exact correspondence + object-graph oracle",
         ref="DESIGN.md §3 C13"),
     "C18": dict(
-        text="Model of Op.increment, the grid resolution (with the integer-root correction loops), the grid loop, header/row selection and the reader; theorems: the grid is exactly the lexicographic enumeration of the product of ranges with the last input fastest (any number of inputs), each-variable grids are equidistant from minimum to maximum, k is the largest integer with k^n <= v for every starting estimate of the root, rows = k^n, reader rows are exactly the non-blank non-comment lines after the skipped ones. Correspondence: grid shapes for v up to 2000 x n = 1..4 x both scopes, whole exported texts byte for byte, reader texts.",
+        text="Model of Op.increment, the grid resolution (with the integer-root correction loops), the grid loop, header/row selection and the reader; theorems: the grid is exactly the lexicographic enumeration of the product of ranges with the last input fastest (any number of inputs), each-variable grids are equidistant from minimum to maximum, k is the largest integer with k^n <= v for every starting estimate of the root, rows = k^n, reader rows are exactly the non-blank non-comment lines after the skipped ones; composed with the engine model (C18b): every written row is the row's inputs followed by the outputs the scalar engine model produces from the restarted state in grid order, independent of the engine's state before the call. Correspondence: the numeric matrix computed from the ENGINE model against the matrix handed to numpy.savetxt; grid shapes for v up to 2000 x n = 1..4 x both scopes, whole exported texts byte for byte, reader texts.",
         note="Coq kernel + vm_compute; stdlib Reals axioms; number formatting and engine outputs are parameters supplied by the harness; hand model tied by correspondence.",
         technique="Rocq proof (enumeration, integer root) about a hand model + exact correspondence on exported text",
         ref="DESIGN.md §3 C18"),
     "C19": dict(
-        text="Control-flow model of Engine.is_ready and of the first exception Engine.process raises (all seven activation methods, integral and weighted outputs), abstracting numbers away; theorems for every engine: ready + activation methods + whitespace-separated tokens + well-formed terms imply process raises nothing, and every needed but missing conjunction, disjunction, implication, aggregation or defuzzifier is reported; exact characterisation of the old hole kept as lemmas. Exhaustive correspondence over 2^5 operator subsets x rule shapes x defuzzifier kinds x blocks plus random structure: message kinds and exception classes.",
+        text="Control-flow model of Engine.is_ready and of the first exception Engine.process raises (all seven activation methods, integral and weighted outputs), abstracting numbers away; theorems for every engine: ready + activation methods + whitespace-separated tokens + well-formed terms imply process raises nothing, and every needed but missing conjunction, disjunction, implication, aggregation or defuzzifier is reported; exact characterisation of the old hole kept as lemmas; the control-flow model is proved sound with respect to the numeric engine model (C19b): ready + the hypotheses imply that Engine.process of the model that is tied bit-for-bit to the implementation returns Ok, for all seven activation methods. Exhaustive correspondence over 2^5 operator subsets x rule shapes x defuzzifier kinds x blocks plus random structure: message kinds and exception classes.",
         note="Coq kernel + vm_compute; closed under the global context; numeric layers are parameters (term errors, non-General selections); hand model tied by correspondence.",
         technique="Rocq proof about a control-flow model + exhaustive correspondence over configuration cells",
         ref="DESIGN.md §3 C19"),
@@ -86,8 +86,8 @@ CLAIMED = {
         technique="Rocq proof (state machine invariants, split invariance) + exhaustive correspondence on histories",
         ref="DESIGN.md §3 C12"),
     "C14": dict(
-        text="Model of the FuzzyLite Language printer and importer over an FLL-level syntax tree with abstract numbers (assumption A-fmt: printing/parsing round-trips at d decimals, instantiated concretely); theorems: import(export e) = normalize e, export(normalize e) = export e under the stability hypothesis (its necessity kernel-checked), export/import/export fixed point, any accepted text normalises in one cycle, representable engines are unchanged; configure arities taken from the table regenerated from term.py. Correspondence: model export = implementation text line by line, model import = implementation's re-import (or the same error class), on engines over every registered class and on accepted/rejected variants; direct oracle on text fixed point, structure and bit-equal outputs.",
-        note="Coq kernel + vm_compute; closed under the global context; A-fmt (Python's %.df / float() round-trip) is a Section hypothesis instantiated by a token instance; Rule.load/Function.load not modelled inside import; known findings fll:rule-enabled-lost, fll:height-rounds-into-tolerance, fll:function-variables-lost reported as KNOWN-FINDING.",
+        text="Model of the FuzzyLite Language printer and importer over an FLL-level syntax tree with abstract numbers (assumption A-fmt: printing/parsing round-trips at d decimals, instantiated concretely); theorems: import(export e) = normalize e, export(normalize e) = export e under the stability hypothesis (its necessity kernel-checked), export/import/export fixed point, any accepted text normalises in one cycle, representable engines are unchanged; a stricter import that also loads every rule (C16 model) and parses every Function formula (C17 model) refines the plain import, never fails with an internal error and round-trips exported engines whose rules load (C14b); configure arities taken from the table regenerated from term.py. Correspondence: model export = implementation text line by line, model import = implementation's re-import (or the same error class), on engines over every registered class and on accepted/rejected variants; direct oracle on text fixed point, structure and bit-equal outputs.",
+        note="Coq kernel + vm_compute; closed under the global context; A-fmt (Python's %.df / float() round-trip) is a Section hypothesis instantiated by a token instance; import_ itself does not load rules/formulas (import_checked in C14b does, mirroring that rules are loaded against the engine built so far); known findings fll:rule-enabled-lost, fll:height-rounds-into-tolerance, fll:function-variables-lost reported as KNOWN-FINDING.",
         technique="Rocq proof (printer/parser round trip over an abstract number interface) + exact text correspondence",
         ref="DESIGN.md §3 C14"),
     "C17": dict(
@@ -101,7 +101,7 @@ CLAIMED = {
         technique="Rocq proof (state-machine invariants for all texts) + exact correspondence on a malformed stream",
         ref="DESIGN.md §3 C16"),
     "C15": dict(
-        text="Model of the Python representation: constructor call trees produced by as_constructor/construction_arguments with every __repr__ override's dropped-field rule and every __init__ signature REGENERATED from /repo on each run (tools/translate_signatures.py, fail closed), and of Python's call semantics for these constructors; theorems for every class of the translated table and every alias setting: construct(repr c) = normalize c, repr is a fixed point of normalize, the encapsulated export evaluates to the same constructor tree. Correspondence: the implementation's repr text parsed with Python's ast equals the model's tree; executing the library's import statement and evaluating the export rebuilds an object with equal repr, equal FLL and bit-identical outputs, for aliases fl / empty / * / custom, plain and encapsulated, formatted and unformatted, and per component.",
+        text="Model of the Python representation: constructor call trees produced by as_constructor/construction_arguments with every __repr__ override's dropped-field rule and every __init__ signature REGENERATED from /repo on each run (tools/translate_signatures.py, fail closed), and of Python's call semantics for these constructors; theorems for every class of the translated table and every alias setting: construct(repr c) = normalize c, repr is a fixed point of normalize, the encapsulated export evaluates to the same constructor tree, and rule texts round-trip through Rule.parse for every rule whose tokens satisfy a computable predicate (no hypothesis on the text left). Correspondence: the implementation's repr text parsed with Python's ast equals the model's tree; executing the library's import statement and evaluating the export rebuilds an object with equal repr, equal FLL and bit-identical outputs, for aliases fl / empty / * / custom, plain and encapsulated, formatted and unformatted, and per component.",
         note="Coq kernel + vm_compute; closed under the global context; Python's parser/eval/keyword binding and black are trusted (theorems are about call trees, not text); repr(float) round-trip is a hypothesis instantiated concretely; known findings pyrepr:rule-enabled-lost and pyrepr:encapsulated-name-shadows-library reported as KNOWN-FINDING.",
         technique="Rocq proof (construct . repr = normalize over signatures regenerated from source) + exact correspondence via Python's ast",
         ref="DESIGN.md §3 C15"),
